@@ -55,6 +55,18 @@ var vxC13Ctx = []vxCtx{
 	{"x := map[", "]int{}\n", 0},
 	{"x := func(", ") {}\n", 0},
 	{"x, ", " := 1, 2\n", 0},
+	{"x := () => {", "}\n", 0},
+	{"x := () => { goto ", " }\n", 0},
+	{"x := (a) => {\n\t", "\n}\n", 0},
+	{"a := x`> 1 +, ", "`\n", 0},
+	{"echo \"${ () => { ", " } }\"\n", 0},
+	{"f(x => x*2", ")\n", 0},
+	{"for i in 0:10", " {\n}\n", 0},
+	{"x := a?:", "\n", 0},
+	{"x := [a, b", "]\n", 0},
+	{"x := a!", "\n", 0},
+	{"var x = () => {", "}\n", 0},
+	{"var x = () => { goto ", " }\n", 0},
 }
 
 func vxHasBad(f ast.Node) (bad bool, walked bool) {
